@@ -166,22 +166,26 @@ def wire_sweep(ctx, impl, traces):
                 ctx.sample(dict(kind="full-run", cfg=base, bytes_caller_to_callee=tA, bytes_callee_to_caller=tB,
                                 trace=[list(op) for op, _ in r["trace"]], fires=r["fires"]))
                 first = False
-            if thorough:
+            if thorough and mi < 2:
+                # exhaustive: every byte offset of both directions for the probe mix and the schema mix
                 cutsA = list(range(tA + 1))
                 cutsB_all = list(range(tB + 1))
+            elif thorough:
+                cutsA = offsets(ctx, tA, r["marksA"], 400)
+                cutsB_all = offsets(ctx, tB, r["marksB"], 400)
             else:
-                cutsA = offsets(ctx, tA, r["marksA"], ctx.n(100, 0))
-                cutsB_all = offsets(ctx, tB, r["marksB"], ctx.n(80, 0))
+                cutsA = offsets(ctx, tA, r["marksA"], ctx.n(80, 0))
+                cutsB_all = offsets(ctx, tB, r["marksB"], ctx.n(60, 0))
             # (1) cut the caller->callee direction everywhere, callee->caller at a few positions
             for cutA in cutsA:
                 for cutB in ([0, tB] if not thorough else [0, tB // 3, tB]):
                     cfg = dict(base, cutA=cutA, cutB=cutB, loss=ctx.rng.choice(impl.LOSS_MODES),
-                               chunkA=ctx.rng.choice([1, 3, 7, 50]), chunkB=ctx.rng.choice([1, 3, 7, 50]))
+                               chunkA=ctx.rng.choice([1, 3, 7, 50]), chunkB=ctx.rng.choice([2, 3, 7, 50]))
                     one(ctx, impl, traces, "cutA", cfg)
             # (2) everything sent, answers cut everywhere
             for cutB in cutsB_all:
                 cfg = dict(base, cutB=cutB, loss=ctx.rng.choice(impl.LOSS_MODES),
-                           chunkA=ctx.rng.choice([1, 7, 50]), chunkB=ctx.rng.choice([1, 2, 7, 50]))
+                           chunkA=ctx.rng.choice([1, 7, 50]), chunkB=ctx.rng.choice([1, 2, 7, 50, 50]))
                 one(ctx, impl, traces, "cutB", cfg)
             # (3) every way of ending the connection at a few positions
             for loss in impl.LOSS_MODES:
@@ -217,7 +221,7 @@ def gen_ops(rng, n):
 
 
 def api_sequences(ctx, impl, traces):
-    n = ctx.n(600, 6000)
+    n = ctx.n(600, 4000)
     for i in range(n):
         ops = gen_ops(ctx.rng, ctx.rng.randint(3, 30))
         safe_point()
